@@ -1607,13 +1607,18 @@ impl OrdWorld {
 impl World for OrdWorld {
     fn legal(&self, op: &Op) -> bool {
         match op {
-            Op::OIns { k } => !self.model.contains_key(k),
+            Op::OIns { k } => {
+                // the packed value of the plain map has room for key offsets -2 ..= 4093 only
+                // (and for versions below 2^20: a million insertions per run)
+                let packable = self.cfg.key_ty != 1 || self.is_set || self.cfg.universe > 1024 || ((-2..=4090).contains(&(*k as i64 - self.cfg.key_lo as i64)) && self.next_ver < 0xF_0000);
+                packable && !self.model.contains_key(k)
+            }
             Op::ODel { .. } | Op::OGet { .. } | Op::OEmpty | Op::OClear | Op::OFirst { .. } | Op::OHRead { .. } | Op::OHWrite { .. } | Op::OHDel { .. } => true,
             Op::OHold { k } => self.model.contains_key(k),
             Op::ONext { k } | Op::OPrev { k } => self.is_set && self.model.contains_key(k),
             Op::OWalk => self.is_set,
             Op::OSweep => true,
-            Op::OBulk { n, pat } => self.model.is_empty() && *n > 0 && *n <= self.cfg.universe && *pat <= 2 && self.colls.iter().all(|c| !c.is_list()),
+            Op::OBulk { n, pat } => self.model.is_empty() && *n > 0 && *n <= self.cfg.universe && *pat <= 4 && self.colls.iter().all(|c| !c.is_list()),
             _ => false,
         }
     }
